@@ -7,6 +7,7 @@ MCFinals == { [code |-> 200, framing |-> "cl",      loc |-> FALSE],
               [code |-> 404, framing |-> "cl",      loc |-> FALSE],
               [code |-> 304, framing |-> "none",    loc |-> FALSE],
               [code |-> 303, framing |-> "cl",      loc |-> TRUE] }
+MCPathModes == {"distinct", "pingpong", "self"}
 MCFinalsSmall == { [code |-> 200, framing |-> "chunked", loc |-> FALSE],
                    [code |-> 303, framing |-> "cl",      loc |-> TRUE] }
 
